@@ -21,17 +21,30 @@ Property clause → theorem
   no map is handed to code outside the scanned packages from keeper code: `C16.table_mapArgsExternal`.
   Why the shape matters: `C16.appendInOrder_order_dependent`, `C16.firstMatch_order_dependent` (the two loop shapes
   a careless edit introduces ARE order dependent on every map with two entries).
-* "regardless of … goroutine scheduling": `C16.table_goStatements`, `C16.table_selectStmts`, `C16.table_chanOps`
-* "regardless of … wall-clock time": `C16.table_wallClockUses` (⊆ reviewed test-fixture allow-list),
+  A SORT whose comparison has ties re-introduces the order of its input: every sort call in consensus code
+  (`Gen.Determinism.sortSites`) has a deterministic input order or a total comparison
+    - `C16.table_sortSites_reviewed`, `C16.table_sortSites_safe`, `C16.table_sortSites_text`
+    - `x/liquidity/amm/util.go` `SortOrders` (`sort.SliceStable` by `HasPriority`) → `C16.site_SortOrders_perm_invariant`
+      (`HasPriority` is a strict total order on distinct (kind, id): `SortOrders.hasPriority_total`), contract inhabited:
+      `C16.isSort_goSortStable`; without the tie-break it IS order dependent: `C16.sortOrders_amountOnly_order_dependent`
+  no `reflect` map iteration, no `sync.Map`: `C16.table_reflectUses`, `C16.table_syncUses`
+* "regardless of … goroutine scheduling": `C16.table_goStatements`, `C16.table_selectStmts`, `C16.table_chanOps`,
+  `C16.table_syncUses`
+* "regardless of … wall-clock time": `C16.table_wallClockUses` (⊆ reviewed test-fixture allow-list; vocabulary: time.Now,
+  Since, Until, After, AfterFunc, Tick, Sleep, NewTimer, NewTicker), `C16.table_zoneUses` (the machine's time zone),
   `C16.table_taintedCallers` (nothing else reaches those functions)
-* "regardless of process": `C16.table_randUses`, `C16.table_envUses`, `C16.table_unsafeUses`,
-  `C16.no_mutable_package_state` + `C16.table_mutablePackageState_size` (no memo / counter / cache in a package-level
-  variable: nothing survives an application instance except the stores)
-* the extractor saw the tree: `C16.table_scan_coverage`, `C16.table_spot_entries`
+* "regardless of process": `C16.table_randUses`, `C16.table_envUses` (os.… / runtime.… ⊆ one reviewed `init`),
+  `C16.table_unsafeUses`, `C16.no_mutable_package_state` + `C16.table_mutablePackageState_size` (no memo / counter / cache
+  in a package-level variable: nothing survives an application instance except the stores); floating point (formatting /
+  parsing / math) only at reviewed, pinned places: `C16.table_floatUses`, `C16.table_floatUses_size`
+* "byte-identical … transaction results": tested, not proved — harness monitor `results_equal` (tx code, data, gas, events
+  with attribute order, across 5-6 replicas), next to `replay_equal` (state, balances, app hash)
+* the extractor saw the tree: `C16.table_scan_coverage`, `C16.table_spot_entries`, `C16.table_spot_entries_vocabulary`
 
 Partial: the Go scheduler and runtime, the SDK / CometBFT / IAVL / wasm code and float arithmetic are outside the
 model; `sdkmath.Int` accumulators are unbounded in the `DistributeOrderAmountToOrders` model. The replay comparison
-(harness `TestC16`, monitor `replay_equal`) is a test.
+(harness `TestC16`, monitors `replay_equal`, `results_equal`, `site_stable`) is a test; Go's sort algorithms are trusted to be
+deterministic functions of their input.
 -/
 namespace Comdex.C16
 open Comdex.MapLoops
@@ -168,6 +181,70 @@ theorem firstMatch_order_dependent {κ ν : Type} (p : ν → Bool) (k1 k2 : κ)
     runLoop (firstMatch p) none [(k1, v1), (k2, v2)] ≠ runLoop (firstMatch p) none [(k2, v2), (k1, v1)] := by
   simp [runLoop, firstMatch, h1, h2, hne]
 
+/-! ## Sort sites: a comparison with ties on an order that came out of a map is nondeterministic -/
+
+/-- `SortOrders` (`sort.SliceStable(orders, HasPriority)`, x/liquidity/amm/util.go:100): for EVERY sort that meets the
+contract (output is a rearrangement; no element is preceded by one it has strict priority over — true of stable and
+unstable sorts alike), on orders with pairwise distinct (kind, id) the output does not depend on the input order.
+`HasPriority` is a strict TOTAL order there (`hasPriority_total`), so the remainder units handed out by
+`DistributeOrderAmountToOrders` go to the same orders whatever order the batch was collected in. -/
+theorem site_SortOrders_perm_invariant (sort : List SortOrders.Key → List SortOrders.Key)
+    (hs : IsSort SortOrders.notAfter sort) (l l' : List SortOrders.Key)
+    (hd : (l.map SortOrders.ident).Nodup) (h : l.Perm l') : sort l = sort l' := by
+  have p1 := hs.perm l
+  have p2 := hs.perm l'
+  refine List.Perm.eq_of_pairwise (le := SortOrders.notAfter) ?_ (hs.sorted l) (hs.sorted l') ((p1.trans h).trans p2.symm)
+  intro a b ha hb hab hba
+  have ha' : a ∈ l := p1.mem_iff.mp ha
+  have hb' : b ∈ l := h.mem_iff.mpr (p2.mem_iff.mp hb)
+  by_cases hi : SortOrders.ident a = SortOrders.ident b
+  · exact eq_of_mem_of_nodup_map SortOrders.ident hd ha' hb' hi
+  · rcases SortOrders.hasPriority_total a b hi with h1 | h1
+    · simp [SortOrders.notAfter, h1] at hba
+    · simp [SortOrders.notAfter, h1] at hab
+
+/-- the contract is met by the executable stable sort (non-vacuity of `hs`) -/
+theorem isSort_goSortStable : IsSort SortOrders.notAfter SortOrders.goSortStable where
+  perm l := List.mergeSort_perm l _
+  sorted l := by
+    have h := List.pairwise_mergeSort (le := fun a b : SortOrders.Key => !SortOrders.hasPriority b a)
+      (fun a b c hab hbc => by
+        simp only [Bool.not_eq_true'] at *
+        exact SortOrders.notAfter_trans a b c hab hbc)
+      (fun a b => by
+        simp only [Bool.or_eq_true, Bool.not_eq_true']
+        cases hba : SortOrders.hasPriority b a
+        · exact Or.inl rfl
+        · exact Or.inr (SortOrders.hasPriority_asymm b a hba)) l
+    exact h.imp (fun hab => by simpa [SortOrders.notAfter] using hab)
+
+/-- non-vacuity: three user orders and a pool order with tied amounts, collected in two different orders -/
+example : SortOrders.goSortStable [⟨500, false, 12⟩, ⟨500, true, 2⟩, ⟨700, false, 13⟩, ⟨500, false, 11⟩]
+    = SortOrders.goSortStable [⟨500, true, 2⟩, ⟨500, false, 11⟩, ⟨500, false, 12⟩, ⟨700, false, 13⟩] :=
+  site_SortOrders_perm_invariant _ isSort_goSortStable _ _ (by decide) (by decide)
+/-- the tie-break is used: equal amounts, user before pool, ascending ids -/
+example : SortOrders.hasPriority ⟨500, false, 11⟩ ⟨500, false, 12⟩ = true ∧ SortOrders.hasPriority ⟨500, false, 12⟩ ⟨500, true, 2⟩ = true
+    ∧ SortOrders.hasPriority ⟨500, true, 2⟩ ⟨500, true, 3⟩ = true ∧ SortOrders.hasPriority ⟨700, true, 9⟩ ⟨500, false, 1⟩ = true := by decide
+
+/-- … and WITHOUT the tie-break (amount only — `BaseOrder.HasPriority`, what dropping the `switch` leaves) the sort is
+order dependent on every pair of distinct orders with equal amounts: a stable sort returns each input unchanged -/
+theorem sortOrders_amountOnly_order_dependent (a b : SortOrders.Key) (hne : a ≠ b) (heq : a.amount = b.amount) :
+    [a, b].Perm [b, a] ∧ SortOrders.goSortStableAmountOnly [a, b] ≠ SortOrders.goSortStableAmountOnly [b, a] := by
+  refine ⟨List.Perm.swap _ _ _, ?_⟩
+  have e1 : SortOrders.goSortStableAmountOnly [a, b] = [a, b] := by
+    simp [SortOrders.goSortStableAmountOnly, List.mergeSort, List.MergeSort.Internal.splitInTwo,
+      SortOrders.hasPriorityAmountOnly, heq]
+  have e2 : SortOrders.goSortStableAmountOnly [b, a] = [b, a] := by
+    simp [SortOrders.goSortStableAmountOnly, List.mergeSort, List.MergeSort.Internal.splitInTwo,
+      SortOrders.hasPriorityAmountOnly, heq]
+  rw [e1, e2]
+  intro h
+  exact hne (List.cons.inj h).1
+
+example : SortOrders.goSortStableAmountOnly [⟨500, false, 11⟩, ⟨500, false, 12⟩]
+    ≠ SortOrders.goSortStableAmountOnly [⟨500, false, 12⟩, ⟨500, false, 11⟩] :=
+  (sortOrders_amountOnly_order_dependent ⟨500, false, 11⟩ ⟨500, false, 12⟩ (by decide) rfl).2
+
 /-! ## Table obligations over the regenerated facts (`extract/determinism` → `Gen/Determinism.lean`) -/
 
 /-- the sites that have a theorem above: (file, enclosing function, normalized body shape) — no line numbers -/
@@ -229,16 +306,104 @@ theorem table_randUses : ∀ u ∈ Determinism.randUses, (u.file, u.fn) ∈ allo
 theorem table_randUses_not_in_keepers :
     ∀ u ∈ Determinism.randUses, u.file = "types/utils.go" ∨ u.file = "x/liquidity/amm/tick.go" := by decide +kernel
 
-/-- the only scanned functions that (transitively) reach a wall-clock or rand user are test fixtures and
-simulation helpers -/
+/-- the only scanned functions that (transitively) reach a user of the wall clock, of rand, of the environment (os.…)
+or of the machine's time zone are test fixtures and simulation helpers -/
 def allowedTainted : List (String × String) := [
   ("app/test_helpers.go", "Setup"), ("app/test_suite.go", "KeeperTestHelper.SetupTestForInitGenesis"),
+  ("app/test_suite.go", "KeeperTestHelper.BeginNewBlock"),
   ("types/utils.go", "GenAndDeliverTxWithFees")]
 
 theorem table_taintedCallers : ∀ u ∈ Determinism.taintedCallers, (u.file, u.fn) ∈ allowedTainted := by decide +kernel
 
-theorem table_envUses : Determinism.envUses = [] := by decide +kernel
+/-- Environment of the process / machine (os.Getenv … os.UserHomeDir, os.ReadFile …, runtime.NumCPU / GOMAXPROCS / GOOS …):
+one reviewed use — `app/app.go` `init`: `os.UserHomeDir()` for `DefaultNodeHome` (where the node keeps its data
+directory; not read by any keeper, handler or ABCI hook — an `init` function cannot be called, and no scanned function
+reaches an environment user: `table_taintedCallers`). -/
+def allowedEnv : List (String × String × String) := [("app/app.go", "init", "os.UserHomeDir")]
+
+theorem table_envUses : ∀ u ∈ Determinism.envUses, u.key ∈ allowedEnv := by decide +kernel
 theorem table_unsafeUses : Determinism.unsafeUses = [] := by decide +kernel
+
+/-- The machine's time zone (time.Local, time.LoadLocation, time.Unix / UnixMilli / UnixMicro — whose result is in the
+LOCAL zone —, Time.Local / Zone / Location): two test fixtures only (`time.Unix(0, 0)` as the unbonding time of a
+fixture validator). Header time (`ctx.BlockTime()`) is UTC. -/
+def allowedZone : List (String × String × String) := [
+  ("app/test_helpers.go", "genesisStateWithValSet", "time.Unix"),
+  ("app/test_suite.go", "KeeperTestHelper.SetupValidator", "time.Unix")]
+
+theorem table_zoneUses : ∀ u ∈ Determinism.zoneUses, u.key ∈ allowedZone := by decide +kernel
+
+/-- `reflect`: the only user is `Keeper.UpdateGenericParams` (x/liquidity/keeper/params.go: sets ONE struct field by name,
+inside a loop over the `keys` SLICE of the governance message); in particular no `MapRange` / `MapKeys` / `MapIter`
+(random order) anywhere. -/
+def allowedReflect : List String := ["reflect.ValueOf", "reflect.Value.Elem", "reflect.Value.FieldByName", "reflect.Value.Set"]
+
+theorem table_reflectUses :
+    ∀ u ∈ Determinism.reflectUses, u.file = "x/liquidity/keeper/params.go" ∧ u.fn = "Keeper.UpdateGenericParams" ∧ u.what ∈ allowedReflect := by
+  decide +kernel
+
+/-- no `sync.Map` (unordered `Range`), no mutex / wait group / atomic: there is no concurrency to protect -/
+theorem table_syncUses : Determinism.syncUses = [] := by decide +kernel
+
+/-- Floating point in consensus code — reviewed, pinned (a new use has no entry):
+* `x/liquidity/amm/tick.go` `TickToIndex` / `TickFromIndex`: `int(math.Pow10(prec))`, `prec` = tick precision (4): exact;
+* `x/liquidity/keeper/rewards.go` `GetFarmingRewardsData` (:267, :290): `int64(math.Floor(dec.MustFloat64()))` — IEEE
+  conversion + floor, no arithmetic in float: bit-identical on every platform Go supports;
+* `x/rewards/keeper/iter.go` `CalculationOfRewards` (:195-201): `math.Pow` on float64, one multiplication, one
+  subtraction, `strconv.FormatFloat(…, 'f', 18, 64)` parsed back into a `Dec`. `math.Pow` is pure Go (no assembly, no
+  libm) and `FormatFloat` is exact shortest-decimal: identical across processes and across amd64 machines (replayed);
+  across ARCHITECTURES the compiler may fuse `x*y+z` inside `math.Pow` (arm64, ppc64, s390x FMA) — a documented residual
+  risk outside this property's list of causes (process, scheduling, map order, wall clock);
+* `x/rewards/types/params.go`: the constant `float64(1)`. -/
+def allowedFloat : List (String × String × String) := [
+  ("x/liquidity/amm/tick.go", "TickToIndex", "math.Pow10"),
+  ("x/liquidity/amm/tick.go", "TickFromIndex", "math.Pow10"),
+  ("x/liquidity/keeper/rewards.go", "Keeper.GetFarmingRewardsData", "math.Floor"),
+  ("x/liquidity/keeper/rewards.go", "Keeper.GetFarmingRewardsData", "method:cosmossdk.io/math.LegacyDec.MustFloat64"),
+  ("x/rewards/keeper/iter.go", "Keeper.CalculationOfRewards", "math.Pow"),
+  ("x/rewards/keeper/iter.go", "Keeper.CalculationOfRewards", "method:cosmossdk.io/math.LegacyDec.MustFloat64"),
+  ("x/rewards/keeper/iter.go", "Keeper.CalculationOfRewards", "strconv.FormatFloat"),
+  ("x/rewards/types/params.go", "<init>", "conv:float64")]
+
+theorem table_floatUses : ∀ u ∈ Determinism.floatUses, u.key ∈ allowedFloat := by decide +kernel
+theorem table_floatUses_size : Determinism.floatUses.length = 12 := by decide +kernel
+
+/-! ### Sort sites -/
+
+/-- every sort call in consensus code, with the origin of its input order as computed by the extractor -/
+def reviewedSortSites : List (String × String × String × String) := [
+  ("app/app.go", "App.ModuleAccountAddrs", "sort.Strings", "maprange"),
+  ("x/liquidity/amm/orderbook.go", "OrderBook.stringRepresentation", "sort.Slice", "param<-maprange(OrderBook.String)"),
+  ("x/liquidity/amm/util.go", "SortOrders", "sort.SliceStable", "param"),
+  ("x/liquidity/types/orderbook.go", "MakeOrderBookPairResponse", "sort.Slice", "param")]
+
+theorem table_sortSites_reviewed : Determinism.sortSites.map (·.key) = reviewedSortSites := by decide +kernel
+
+/-- comparisons that are TOTAL on the elements (whole-element comparison, antisymmetric): proved order independent
+above (`site_ModuleAccountAddrs_perm_invariant`, `site_OrderBookString_perm_invariant`) -/
+def totalComparisons : List (String × String) := [
+  ("App.ModuleAccountAddrs", "<whole element>"),
+  ("OrderBook.stringRepresentation", "{ return prices[i].GT(prices[j]) }")]
+
+/-- for each sort site: the input order is deterministic (it does not come out of a map: a parameter no scanned caller
+fills from a map range, or a local slice not appended to in a map range — and by `table_mapRangeSites_proven` no map
+range leaks its order into any slice, Go's pdqsort / insertion sort being deterministic algorithms), OR the
+comparison is total on the elements. -/
+theorem table_sortSites_safe :
+    ∀ s ∈ Determinism.sortSites, s.origin = "param" ∨ s.origin = "local" ∨ (s.fn, s.less) ∈ totalComparisons := by
+  decide +kernel
+
+/-- the comparisons are textually the ones that were reviewed / modelled (`SortOrders.hasPriority` = the three
+`HasPriority` methods; an edit — e.g. dropping the `OrderID` / `PoolID` tie-break — changes the text) -/
+def modelledComparisons : List (String × String × String) := [
+  ("App.ModuleAccountAddrs", "<whole element>", ""),
+  ("OrderBook.stringRepresentation", "{ return prices[i].GT(prices[j]) }", ""),
+  ("SortOrders", "{ return orders[i].HasPriority(orders[j]) }",
+    "BaseOrder.HasPriority{ return order.Amount.GT(other.GetAmount()) } | PoolOrder.HasPriority{ if !order.Amount.Equal(other.GetAmount()) { return order.BaseOrder.HasPriority(other) } switch other := other.(type) { case *UserOrder: return false case *PoolOrder: return order.PoolID < other.PoolID default: panic(fmt.Errorf(\"invalid order type: %T\", other)) } } | UserOrder.HasPriority{ if !order.Amount.Equal(other.GetAmount()) { return order.BaseOrder.HasPriority(other) } switch other := other.(type) { case *UserOrder: return order.OrderID < other.OrderID case *PoolOrder: return true default: panic(fmt.Errorf(\"invalid order type: %T\", other)) } }"),
+  ("MakeOrderBookPairResponse", "{ return configs[i].PriceUnitPower < configs[j].PriceUnitPower }", "")]
+
+theorem table_sortSites_text :
+    Determinism.sortSites.map (fun s => (s.fn, s.less, s.callees)) = modelledComparisons := by decide +kernel
 
 /-- Maps handed to code outside the scanned packages: only application wiring in `app/` (SDK constructors and
 `module.Manager` functions, which order by `OrderInitGenesis`/sorted keys; `encoding/json` and `fmt` print maps with
@@ -298,5 +463,14 @@ theorem table_spot_entries :
     ∧ ("types/utils.go", "GenAndDeliverTxWithFees", "GenAndDeliverTx") ∈ Determinism.taintedCallers.map (·.key)
     ∧ Determinism.mapArgsExternal.length ≥ 30
     ∧ ("app", "github.com/cosmos/cosmos-sdk/baseapp.MountKVStores") ∈ Determinism.mapArgsExternalSummary := by decide +kernel
+
+/-- … and the tables of the extended vocabulary are populated (float, reflect, environment, time zone, sort sites) -/
+theorem table_spot_entries_vocabulary :
+    ("x/rewards/keeper/iter.go", "Keeper.CalculationOfRewards", "strconv.FormatFloat") ∈ Determinism.floatUses.map (·.key)
+    ∧ ("x/liquidity/keeper/params.go", "Keeper.UpdateGenericParams", "reflect.Value.FieldByName") ∈ Determinism.reflectUses.map (·.key)
+    ∧ ("app/app.go", "init", "os.UserHomeDir") ∈ Determinism.envUses.map (·.key)
+    ∧ ("app/test_suite.go", "KeeperTestHelper.SetupValidator", "time.Unix") ∈ Determinism.zoneUses.map (·.key)
+    ∧ ("x/liquidity/amm/util.go", "SortOrders", "sort.SliceStable", "param") ∈ Determinism.sortSites.map (·.key) := by
+  decide +kernel
 
 end Comdex.C16
